@@ -200,7 +200,7 @@ def run(m: Model, r: Report, tier: str) -> None:
     r.check("except (ConnectionError, UDSException)" in t and "isinstance(e, ConnectionError) or isinstance(e.__cause__, ConnectionError)" in t and
             "await self.reconnect()" in t, "R7", f"{wl.qualname}#reconnects", "waiting for the ECU must reconnect after a connection error (direct or as cause)", loc=wl.loc)
     lines_read = m.require_function(f"{BASE}.LinesTransportMixin.read")
-    r.check("binascii.unhexlify(d)" in ast.unparse(lines_read.node) and ".strip()" in ast.unparse(lines_read.node), "R7",
+    r.check(m.has(lines_read, "binascii.unhexlify(d)") and ".strip()" in ast.unparse(lines_read.node), "R7",
             f"{lines_read.qualname}#eof-is-empty", "end-of-stream of a line transport must decode to b'' (the client's explicit end-of-stream result)", loc=lines_read.loc)
 
     r.assumptions += ["asyncio.wait_for / asyncio.timeout bound the awaited operation", "writer.close()/wait_closed() are idempotent"]
